@@ -41,6 +41,7 @@ class Contract:
     pair_ensures: list = field(default_factory=list)
     pair_shared: tuple = ()
     name_prefix: str = ""
+    max_paths: int = 0  # 0: the verifier's default limit
     no_replay: bool = False  # inputs cannot be rebuilt as real objects (third-party classes, captured effects)
 
     @property
